@@ -49,7 +49,11 @@ case "$ID" in
     build "$BIN"
     exit 0;;
   replay)
-    if grep -q '"property": "C1[012]"' "$2" 2>/dev/null; then prepare_overlay; build "$BIN" "${OVFLAGS[@]}"; else build "$BIN"; fi
+    RP=$(jq -r .property "$2" 2>/dev/null)
+    if needs_overlay "$RP"; then
+      [ "$RP" = C11 ] && OVGEN_EXTRA=(-stmtpoints)
+      prepare_overlay; build "$BIN" "${OVFLAGS[@]}"
+    else build "$BIN"; fi
     "$BIN" replay "$2"; exit $?;;
 esac
 if needs_overlay "$ID"; then
